@@ -37,6 +37,7 @@ type RunSummary struct {
 	knownSeen  map[string]int
 	wall       time.Duration
 	replays    int
+	inAlt      bool
 }
 
 func (rs *RunSummary) Add(P *Program, fn *ssa.Function, hr *HarnessResult) {
@@ -151,8 +152,21 @@ func (rs *RunSummary) reportViolation(h harnessSummary, v *PathResult) {
 		rs.violations++
 		return
 	}
-	fmt.Printf("UNCONFIRMED harness=%s verdict=%s native=%q replay=%s inputs: %s\n", h.Name, v.Verdict.String(), native, path, rf.Inputs)
-	rs.unconfirmed++
+	// the same verdict was reached on other paths: try their counterexamples before giving up
+	if !rs.inAlt {
+		for i := range h.HR.Alt[v.Verdict.String()] {
+			alt := &h.HR.Alt[v.Verdict.String()][i]
+			rs.inAlt = true
+			before := rs.violations
+			rs.reportViolation(h, alt)
+			rs.inAlt = false
+			if rs.violations > before {
+				return
+			}
+		}
+		fmt.Printf("UNCONFIRMED harness=%s verdict=%s native=%q replay=%s inputs: %s\n", h.Name, v.Verdict.String(), native, path, rf.Inputs)
+		rs.unconfirmed++
+	}
 }
 
 func ReadReplay(path string) (*ReplayFile, error) {
